@@ -69,7 +69,11 @@ func TestVerifC13Readers(t *testing.T) {
 	defer rec.Flush()
 	rounds := vfstat.EnvInt("VERIF_N", 3)
 	seed, _ := strconv.ParseUint(os.Getenv("VERIF_SHARD_SEED"), 10, 64)
-	rng := rand.New(rand.NewPCG(seed, 0xC13))
+	salt := uint64(0xC13)
+	for _, c := range []byte(os.Getenv("C13_SALT")) { // lets the -race unit run other rounds than the plain one
+		salt = salt*1099511628211 + uint64(c)
+	}
+	rng := rand.New(rand.NewPCG(seed, salt))
 	ctx := context.Background()
 	sizes := []int{c13ReaderMin, 100, 4096, 16383, 16384, 16385, 65536, 300000}
 
